@@ -96,7 +96,10 @@ pub fn has_adjacent_or_empty_text(doc: &XmlDocument) -> bool {
                 // in the raw view text, CDATA and references are separate nodes in the re-parsed copy too,
                 // but two adjacent *text* nodes merge
                 let plain = matches!(k, XmlNode::Text(_));
-                if empty || (prev_text && plain) {
+                // a text node that holds "]]>" (reachable by deleting from "] ]>") is printed with a reference, which is
+                // a node of its own in the re-parsed copy's raw view
+                let needs_reference = plain && hist::with_chardata(&k, |c| c.data().map(|d| d.contains("]]>")).unwrap_or(false)).unwrap_or(false);
+                if empty || (prev_text && plain) || needs_reference {
                     return true;
                 }
                 prev_text = plain;
